@@ -509,6 +509,15 @@ for _k in ("tensor", "sptensor"):
             big = with_shape(e, tuple(s + 1 for s in e.shape))
             W = ttb.tensor(np.ones(big.shape)) if k == "tensor" else ttb.tensor(np.ones(big.shape)).to_sptensor()
             return f"{k}.mask", X.mask, (W,), {}, X, {}
+
+        @row(f"{k}.mask:mask-of-another-order", (2, 3))
+        def _r7(e, k=k):
+            # fewer modes (fits mode for mode as far as it goes) or one more (a trailing mode of size 1 or 2)
+            X = e.holder(k)
+            c = int(e.rng.integers(0, 3))
+            wshape = [tuple(e.shape[:-1]), tuple(e.shape) + (1,), (1,)][c]
+            W = ttb.tensor(np.ones(wshape)) if k == "tensor" else ttb.tensor(np.ones(wshape)).to_sptensor()
+            return f"{k}.mask", X.mask, (W,), {}, X, {"mask_order": ["lower", "higher", "one-way"][c]}
     _mkD3(_k)
 
 
@@ -807,6 +816,21 @@ def _(e):
     fm = e.factors(2)
     fm[0] = fm[0][:, 0]
     return "ktensor.__init__", ttb.ktensor, (fm,), {}, None, {}
+
+
+@row("ktensor.__init__:three-dimensional-factor")
+def _(e):
+    fm = e.factors(2)
+    k_ = int(e.rng.integers(0, len(fm)))
+    fm[k_] = np.stack([fm[k_], fm[k_]], axis=[0, 2][int(e.rng.integers(0, 2))])
+    return "ktensor.__init__", ttb.ktensor, (fm,), {}, None, {}
+
+
+@row("sptenmat.__init__:negative-subscript", (2, 3))
+def _(e):
+    M = e.sptenmat()
+    subs = np.array([[[-1, 0], [0, -1], [-M.shape[0], 0]][int(e.rng.integers(0, 3))], [0, 0]])
+    return "sptenmat.__init__", ttb.sptenmat, (subs, np.array([[1.0], [2.0]]), np.array(M.rdims), np.array(M.cdims), tuple(M.tshape)), {}, None, {}
 
 
 @row("ttensor.__init__:factor-columns-vs-core", (2, 3))
